@@ -1,6 +1,7 @@
 package main
 
 import (
+	"go/token"
 	"crypto/sha1"
 	"fmt"
 	"go/types"
@@ -313,15 +314,17 @@ func proxyprotoBounds(r *R) {
 				}
 			}
 			lowC, highC := sl.Low == nil || isConstV(sl.Low), sl.High == nil || isConstV(sl.High)
-			if lowC && highC {
+			// a bound chosen among constants (per protocol case) and adjusted by constants is as good as a literal:
+			// the largest value it can take is the length needed
+			lowSet, lowFin := constSet(sl.Low, 0)
+			highSet, highFin := constSet(sl.High, 0)
+			_, lowIsPhi := sl.Low.(*ssa.Phi)
+			if lowC && highC || lowFin && highFin && !(lowIsPhi && highC) {
 				// constant bounds on a slice: need the length
 				var need int64
-				if sl.Low != nil {
-					need, _ = constInt(sl.Low)
-				}
-				if sl.High != nil {
-					if h, _ := constInt(sl.High); h > need {
-						need = h
+				for _, k := range append(lowSet, highSet...) {
+					if k > need {
+						need = k
 					}
 				}
 				if need == 0 {
@@ -412,4 +415,53 @@ func paramMinLen(r *R, p *ssa.Parameter) int64 {
 		return 0
 	}
 	return best
+}
+
+// constSet lists the values v can take when it is a constant, a phi of such values, or such a value plus/minus
+// a constant; ok=false when v is anything else. A nil bound is the empty set.
+func constSet(v ssa.Value, depth int) ([]int64, bool) {
+	if v == nil {
+		return nil, true
+	}
+	if depth > 4 {
+		return nil, false
+	}
+	if k, ok := constInt(v); ok {
+		return []int64{k}, true
+	}
+	switch x := v.(type) {
+	case *ssa.Phi:
+		var out []int64
+		for _, e := range x.Edges {
+			s, ok := constSet(e, depth+1)
+			if !ok {
+				return nil, false
+			}
+			out = append(out, s...)
+		}
+		return out, true
+	case *ssa.BinOp:
+		if x.Op != token.ADD && x.Op != token.SUB {
+			return nil, false
+		}
+		a, aok := constSet(x.X, depth+1)
+		b, bok := constSet(x.Y, depth+1)
+		if !aok || !bok {
+			return nil, false
+		}
+		var out []int64
+		for _, p := range a {
+			for _, q := range b {
+				if x.Op == token.ADD {
+					out = append(out, p+q)
+				} else {
+					out = append(out, p-q)
+				}
+			}
+		}
+		return out, true
+	case *ssa.Convert:
+		return constSet(x.X, depth+1)
+	}
+	return nil, false
 }
